@@ -122,10 +122,7 @@ Qed.
 
 Lemma delete_signature_no_oof script b : delete_signature script b <> OutOfFuel.
 Proof.
-  unfold delete_signature. destruct (btc_compile_push_data b) eqn:E.
-  - apply delete_walk_no_oof. lia.
-  - discriminate.
-  - now apply compile_push_no_oof in E.
+  unfold delete_signature, plain_push. repeat break_if; try discriminate; apply delete_walk_no_oof; lia.
 Qed.
 
 Lemma delete_signatures_no_oof blobs : forall script, delete_signatures script blobs <> OutOfFuel.
